@@ -37,8 +37,21 @@ def cmd_check(a):
         with open(a.replay) as f:
             v = json.load(f)
         st = engine.Stats(check.ID)
-        check.replay(v["scenario"], v["sub"], st)
-        hit = [x for x in st.violations.values()]
+        if v.get("replay_mode") == "unit":
+            # the scenario alone did not reproduce: what it shows depends on the scenarios executed before it in its unit,
+            # so the whole unit (a deterministic sequence of scenarios in a fresh process) is the replayed history
+            unit = v["unit"]
+            unit = tuple(tuple(x) if isinstance(x, list) else x for x in unit) if isinstance(unit, list) else unit
+            if hasattr(check, "units"):
+                for u in check.units(v.get("tier", "quick")):
+                    if engine._j(u) == v["unit"] or json.loads(json.dumps(u)) == v["unit"]:
+                        unit = u
+                        break
+            check.run_unit(unit, st, v.get("tier", "quick"))
+            hit = [x for fp, x in st.violations.items() if fp == v["fingerprint"]]
+        else:
+            check.replay(v["scenario"], v["sub"], st)
+            hit = [x for x in st.violations.values()]
         if not a.quiet:
             print("replay of {} [{}]".format(a.replay, v.get("fingerprint")))
             print(" scenario:", json.dumps(v["scenario"], sort_keys=True))
@@ -67,6 +80,12 @@ def cmd_check(a):
             continue
         path = report.write_replay(v)
         ok, out = report.reproduces(check.ID, path)
+        if not ok and v.get("unit") is not None:
+            v["replay_mode"] = "unit"
+            v["note"] = (v.get("note", "") + " | the scenario alone does not reproduce; it depends on the scenarios executed before it "
+                         "in its unit, so the replay re-executes the whole unit in a fresh process").strip(" |")
+            path = report.write_replay(v)
+            ok, out = report.reproduces(check.ID, path)
         if not ok:
             errors.append((-1, "unreproducible alarm {} (replay said: {})".format(fp, out[-300:]), ""))
             continue
